@@ -26,13 +26,13 @@ CLAIMS = {
         category='proof', design='DESIGN.md §4 C06, §3.2',
         technique='partitioned interval x congruence abstract interpretation of every encoder guard; accepted set == legal set per operand; mask-after-guard dominance rule',
         text='For every operand of the 93 bindings the accepted set (intervals, congruences, alias windows, constraint closures) is derived from the guards on every path and compared, both inclusions, '
-             'with the legal set from the ISA tables; every mask of an operand-derived value must be dominated by a range guard that fits the masked width. Off-by-one bounds, dropped scale checks and wrapped operands are decided for all values.',
+             'with the legal set from the ISA tables; every mask of an operand-derived value must be dominated by a range guard that fits the masked width; the evaluated immediate reaches the encoder untransformed, and a compression rule that drops an immediate pins it to the one value the compressed form stands for (the encoder never sees it). Off-by-one bounds, dropped scale checks and wrapped operands are decided for all values.',
         note='Trusted: CPython ast; bbverif/bitdom.py; operand ranges in bbverif/oracle.py (jalr uses the documented, stricter even-offset set). A guard placed on already-extracted bits is over-approximated and then reported or refused (exit 2), never passed.'),
     'C07': dict(
         category='proof', design='DESIGN.md §4 C07, §3.2',
         technique='abstract interpretation of sign_extend/relocate_hi/relocate_lo over linear forms in the bits of an unbounded two\'s-complement input; coefficient identities modulo 2^12/2^20/2^32',
         text='relocate_lo and relocate_hi are reduced to closed forms over the bits of an arbitrary integer v (exact linear form / signed residue); lo == v (mod 2^12), hi == (v>>12)+v[11] (mod 2^20) and (hi<<12)+lo == v (mod 2^32) '
-             'are then identities between coefficients, hence hold for all 2^32 values and every negative or >2^31 spelling; ranges are compared with the accepted sets derived for lui/auipc and all I/S-type consumers; Hi/Lo.eval and parse_immediate are followed by def-use.',
+             'are then identities between coefficients, hence hold for all 2^32 values and every negative or >2^31 spelling; ranges are compared with the accepted sets derived for lui/auipc and all I/S-type consumers; Hi/Lo.eval and parse_immediate are followed by def-use; both halves of a pair are taken of the same value: evaluated at the item\'s own final offset against the final tables, relative to the auipc at every site, nothing added after the split, the stored operand being the value evaluated on that very path.',
         note='Trusted: CPython ast; the linear-form arithmetic of bbverif/relocdom.py; accepted sets from bbverif/bitdom.py. The pairing of the two halves emitted by the pseudo-instruction pass is decided under C03/C05.'),
     'C03': dict(
         category='other', design='DESIGN.md §4 "The layout invariant", C03',
@@ -51,7 +51,7 @@ CLAIMS = {
         category='other', design='DESIGN.md §4 C09',
         technique='per-path byte accounting of every pass (symbolic path enumeration + size algebra), append-only/in-order rule, class-flow exhaustiveness, linear-modular normal form of Align.resolution_size',
         text='For every path through one iteration of every pass: bytes contributed by the consumed item == bytes of the appended items + label shift, appended in iteration order only; class flow shows each item kind has exactly one handler and only Blob reaches the concatenation; '
-             'resolution_size normalises over p = qN + r to 0 / N - r and is emitted as that many zero bytes at the item-start offset. This decides the concatenation/align statement for all item sequences and all N at all residues.',
+             'resolution_size normalises over p = qN + r to 0 / N - r and is emitted as that many zero bytes at the item-start offset; assemble threads the list from pass to pass and never changes it in place between passes. This decides the concatenation/align statement for all item sequences and all N at all residues.',
         note='Trusted: CPython ast, struct standard sizes (oracle), bbverif pathwalk/layout/alignform. An align expression outside the linear-modular fragment yields exit 2, not a violation.'),
     'C04': dict(
         category='other', design='DESIGN.md §4 "The compression relation", C04',
@@ -102,7 +102,7 @@ CLAIMS = {
     'C16': dict(
         category='other', design='DESIGN.md §4 C16',
         technique='purity / determinism effect analysis over everything reachable from assemble() in a repository-specific call graph; positive fixture keeps zero-instance rules alive',
-        text='For the ~160 functions reachable from assemble(): no writes to module-level state at call time (stores, mutating methods, aliases, ChainMap first position), no mutable defaults / memo decorators / function attributes, no iteration or materialisation of set-kinded values, '
+        text='For the ~160 functions reachable from assemble(): no writes to module-level state at call time (stores, mutating methods, aliases, ChainMap first position), no mutable defaults / memo decorators / function attributes, no iteration or materialisation of set-kinded values (set algebra on dict views included), '
              'no ambient inputs (time, random, id, hash, environment, unsorted listings; cwd only on the source-string branch), eval with pinned builtins. These are exactly the mechanisms by which a result could depend on earlier calls, call order or the hash seed; absence is a property of the code shape, for all interleavings.',
         note='Trusted: CPython ast; call resolution of bbverif/callgraph.py; determinism of CPython and struct. A fixture with one instance of every rule must fire on each run, otherwise the run ends with ANALYSIS-ERROR.'),
     'C10': dict(
@@ -121,7 +121,7 @@ CLAIMS = {
         category='other', design='DESIGN.md §4 C11',
         technique='must-pass-through of the exact-int test on all return paths of Arithmetic.eval; sequential-evaluation and alias-substitution rules from path summaries; register-kinded fields derived from encoder summaries; str|int|Expr kind dataflow',
         text='Decided in part: every evaluated result is returned only after type(result) == int (or is ord of a character literal) with builtins pinned off; constants are evaluated in order over the constants so far and stored under their own name, shadowing refused; '
-             'aliases are resolved before every consumer, in exactly the register-kinded fields, by a positional rebuild; a register field moved into an immediate under -c keeps representation and environment; constants inside %hi/%lo/%position reach the same evaluator.',
+             'aliases are resolved before every consumer, in exactly the register-kinded fields, by a positional rebuild; a register field moved into an immediate under -c keeps representation and environment; constants inside %hi/%lo/%position reach the same evaluator; no compression rule asks whether an operand is spelled as a literal.',
         note='Not decided: the arithmetic itself (delegated to Python eval; trusted) and what the regex tokenizer does to quotes, #, commas and parentheses inside a token (character literals) - value semantics of library string processing on particular inputs.'),
     'C13': dict(
         category='other', design='DESIGN.md §4 C13',
